@@ -247,7 +247,7 @@ impl Property for P {
     fn cases(tier: Tier) -> u64 {
         match tier {
             Tier::Quick => 240,
-            Tier::Thorough => 4_000,
+            Tier::Thorough => 1_500,
         }
     }
     fn chunk(_t: Tier) -> u64 {
